@@ -75,9 +75,11 @@ type pods struct {
 }
 
 func (p *pods) Create(ctx context.Context, pod *corev1.Pod, _ metav1.CreateOptions) (*corev1.Pod, error) {
+	// the gate comes first: the object is serialised when the request is sent, not when the call was prepared
+	c := p.c.call(ctx, "create", KPod, p.ns, pod.Name)
 	pod = pod.DeepCopy()
 	pod.Namespace = p.ns
-	o, err := p.c.API.Create(p.c.call(ctx, "create", KPod, p.ns, pod.Name), pod)
+	o, err := p.c.API.Create(c, pod)
 	if err != nil {
 		return nil, err
 	}
@@ -138,9 +140,10 @@ type jobs struct {
 }
 
 func (j *jobs) Create(ctx context.Context, o *execution.Job, _ metav1.CreateOptions) (*execution.Job, error) {
+	c := j.c.call(ctx, "create", KJob, j.ns, o.Name)
 	o = o.DeepCopy()
 	o.Namespace = j.ns
-	r, err := j.c.API.Create(j.c.call(ctx, "create", KJob, j.ns, o.Name), o)
+	r, err := j.c.API.Create(c, o)
 	if err != nil {
 		return nil, err
 	}
@@ -178,9 +181,10 @@ type jobConfigs struct {
 }
 
 func (j *jobConfigs) Create(ctx context.Context, o *execution.JobConfig, _ metav1.CreateOptions) (*execution.JobConfig, error) {
+	c := j.c.call(ctx, "create", KJobConfig, j.ns, o.Name)
 	o = o.DeepCopy()
 	o.Namespace = j.ns
-	r, err := j.c.API.Create(j.c.call(ctx, "create", KJobConfig, j.ns, o.Name), o)
+	r, err := j.c.API.Create(c, o)
 	if err != nil {
 		return nil, err
 	}
